@@ -55,7 +55,7 @@ func c14FF(depth, env int) bool {
 }
 
 func init() {
-	mons := one(monitors.Orders{})
+	mons := one(monitors.Committed(monitors.Orders{}, "order/", "pool/", "next_order_id"))
 	MonitorsFor["C14"] = mons
 	Register(&Check{ID: "C14", Level: "model_checking", Run: func(c *Ctx) {
 		var restartRuns, restartViol int64
@@ -100,6 +100,8 @@ func init() {
 				{World: "bookdisk", Quick: b(2, 2, 2), EnvFilter: c14FF},
 				{World: "bookdisk", Quick: b(3, 3, 1), OneEnv: true, MenuFilter: c14CoreOnly}, // three transactions in ONE block
 				{World: "book", Quick: b(2, 2, 2), OneEnv: true, MenuFilter: c14Filter, NoDedupe: true, OnTransition: withRestarts},
+				// tiny orders (10^13 pip): the 53-bit price key of an order moves on a partial fill
+				{World: "booktiny", Quick: b(3, 3, 2), OneEnv: true},
 			}
 		} else {
 			runs = []WorldRun{
@@ -113,6 +115,7 @@ func init() {
 				{World: "book", Thorough: b(3, 3, 2), OneEnv: true, MenuFilter: c14Filter},
 				{World: "book", Thorough: b(3, 2, 3), OneEnv: true, MenuFilter: c14Filter, NoDedupe: true, OnTransition: withRestarts},
 				{World: "bookdisk", Thorough: b(3, 2, 2), OneEnv: true, MenuFilter: c14CoreOnly, NoDedupe: true, OnTransition: withRestarts},
+				{World: "booktiny", Thorough: b(4, 3, 2), OneEnv: true},
 			}
 		}
 		RunExplore(c, runs, mons, baseAssumptions...)
